@@ -622,8 +622,8 @@ def evaluate(ctx, R, units, variants, cfg, where, sample=False):
 
 def check(ctx):
     rng = ctx.rng
-    n_same = 1200 if ctx.quick else 16000
-    n_keys = 300 if ctx.quick else 3000
+    n_same = 4000 if ctx.quick else 100000
+    n_keys = 800 if ctx.quick else 20000
     jobs = []
     for i in range(n_same + n_keys):
         cfg = cfg_draw(rng)
